@@ -343,17 +343,28 @@ def rule_const_masks(ctx):
         if not ok:
             r.violate(k, 'const-value', k.split('::')[-1], '%s is %s, expected %s' % (k, got, hex(v)), expected=hex(v))
     # literal masks / clamp used in the sketch code
+    def cval(o):
+        # a literal, or a named constant of the crate (`COUNTER_MAX`)
+        if o.get('val') is not None:
+            return o.get('val')
+        c_ = C.get(norm(str(o.get('item') or ''))) if o.get('k') == 'const' else None
+        return c_.get('val') if c_ else None
+
+    def with_module_helpers(b_):
+        # the function, its closures and the helpers of the sketch module it reaches (the expression may be extracted: `count_at`, `counter_offset`)
+        ns = [b_.nid] + sorted(n_ for n_ in ctx.prog.reachable_from([b_.nid]) if n_ != b_.nid and n_.lstrip('<').startswith('common::frequency_sketch::'))
+        return [ctx.prog.bodies[n_] for n_ in ns if n_ in ctx.prog.bodies]
     b = ctx.body('common::frequency_sketch::FrequencySketch::frequency')
-    bodies = [b] + [ctx.prog.bodies[c] for c in ctx.prog.closures_of.get(b.nid, [])]
+    bodies = with_module_helpers(b)
     consts = [s['rv'] for bb in bodies for _, _, s in bb.stmts() if s['st'] == 'assign' and s['rv']['rv'] == 'binop' and s['rv']['op'] == 'BitAnd']
-    nib = [c for c in consts if c['b'].get('val') == 15 or c['a'].get('val') == 15]
+    nib = [c for c in consts if cval(c['b']) == 15 or cval(c['a']) == 15]
     # (`x % 16` on an unsigned value is the same mask)
-    nib += [s['rv'] for bb in bodies for _, _, s in bb.stmts() if s['st'] == 'assign' and s['rv']['rv'] == 'binop' and s['rv']['op'] == 'Rem' and s['rv']['b'].get('val') == 16]
+    nib += [s['rv'] for bb in bodies for _, _, s in bb.stmts() if s['st'] == 'assign' and s['rv']['rv'] == 'binop' and s['rv']['op'] == 'Rem' and cval(s['rv']['b']) == 16]
     r.instance(function=b.nid, nibble_mask_sites=len(nib))
     if not nib:
         r.violate(b.nid, 'nibble-mask', '0xF', 'frequency() does not mask the counter with 0xF', where=ctx.where(b.nid))
     b2 = ctx.body('common::frequency_sketch::FrequencySketch::increment_at')
-    m15 = [s for _, _, s in b2.stmts() if s['st'] == 'assign' and s['rv']['rv'] == 'binop' and s['rv']['op'].startswith('Shl') and s['rv']['a'].get('val') == 15]
+    m15 = [s for bb in with_module_helpers(b2) for _, _, s in bb.stmts() if s['st'] == 'assign' and s['rv']['rv'] == 'binop' and s['rv']['op'].startswith('Shl') and cval(s['rv']['a']) == 15]
     r.instance(function=b2.nid, saturation_mask_sites=len(m15))
     if not m15:
         r.violate(b2.nid, 'saturation-mask', '0xF<<offset', 'increment_at() does not build the 0xF saturation mask', where=ctx.where(b2.nid))
